@@ -295,6 +295,7 @@ def simple_attr_diff(a, b):
     """{(module path, attr): value in a} for plain, simply-valued attributes that differ"""
     import torch
     out = {}
+    tab = _table()
     for (n, ma), (_, mb) in zip(a.named_modules(), b.named_modules()):
         pa, pb = fp.plain_attrs(ma), fp.plain_attrs(mb)
         for k in sorted(set(pa) | set(pb)):
@@ -302,7 +303,8 @@ def simple_attr_diff(a, b):
             if isinstance(va, torch.Tensor) and isinstance(vb, torch.Tensor):
                 # plain tensor attributes (not buffers): candidates too; the ones a forward recomputes are
                 # eliminated by the attribution
-                if k != '_input_example' and fp.thash(va) != fp.thash(vb) and va.shape == vb.shape:
+                rec = tab.get(type(ma).__name__, {}).get(k, {}).get('kind') == 'recomputed'   # poison-tested
+                if k != '_input_example' and not rec and fp.thash(va) != fp.thash(vb) and va.shape == vb.shape:
                     out[(n, k)] = va.detach().clone()
                 continue
             if isinstance(va, torch.Tensor) or isinstance(vb, torch.Tensor):
